@@ -390,6 +390,9 @@ package server
 // A replication request is a NATS payload too (C14): whatever replica id it names, the leader must not crash. The leader
 // keeps a replicator for every replica EXCEPT itself (startReplicating), so "is a replica" does not imply "has a
 // replicator".
+// (the hand-over dereferences its receiver: a request for which there is no replicator must not get this far)
+//@ func (*replicator).request serves C14, C02
+//@   requires [there-is-a-replicator-to-hand-the-request-to] r != nil
 //@ func (*partition).handleReplicationRequest serves C14, C02
 //@   call request requires [C02:only-requests-of-the-current-leader-epoch-are-served] req.LeaderEpoch == 0 || req.LeaderEpoch == p.LeaderEpoch
 //@   assumes p != nil && p.Partition != nil && p.srv != nil && p.srv.config != nil && p.srv.logger != nil && msg != nil
